@@ -43,8 +43,8 @@ func mut(t *rapid.T, percent int, label string) bool {
 
 func genCLTVOperand(t *rapid.T, tx *ms.Tx) int64 {
 	l := int64(tx.LockTime)
-	switch rapid.IntRange(0, 9).Draw(t, "cltvKind") {
-	case 0, 1:
+	switch rapid.IntRange(0, 13).Draw(t, "cltvKind") {
+	case 0, 1, 10, 11, 12, 13:
 		return l
 	case 2:
 		return l + 1
@@ -70,8 +70,8 @@ func genCLTVOperand(t *rapid.T, tx *ms.Tx) int64 {
 func genCSVOperand(t *rapid.T, seq uint32) int64 {
 	s := int64(seq)
 	m := s & (ms.SequenceTypeFlag | ms.SequenceMask)
-	switch rapid.IntRange(0, 9).Draw(t, "csvKind") {
-	case 0, 1:
+	switch rapid.IntRange(0, 13).Draw(t, "csvKind") {
+	case 0, 1, 10, 11, 12, 13:
 		return m
 	case 2:
 		return m + 1
@@ -1158,8 +1158,8 @@ func genTaprootPlan(t *rapid.T, sk *skeleton, idx int, pMut int) *plan {
 // ---------------------------------------------------------------------------
 
 // genPlan draws one plan. pMut is the per-opportunity mutation percentage.
-func genPlan(t *rapid.T, sk *skeleton, idx int, allowLate bool) *plan {
-	pMut := rapid.SampledFrom([]int{0, 0, 20, 40, 60}).Draw(t, "pMut")
+func genPlan(t *rapid.T, sk *skeleton, idx int, allowLate bool, pMuts []int) *plan {
+	pMut := rapid.SampledFrom(pMuts).Draw(t, "pMut")
 	fam := rapid.IntRange(0, 99).Draw(t, "family")
 	switch {
 	case fam < 48:
@@ -1177,7 +1177,7 @@ func genPlan(t *rapid.T, sk *skeleton, idx int, allowLate bool) *plan {
 func genG3Spend(t *rapid.T) *spend {
 	sk := genSkeleton(t, 1)
 	idx := rapid.IntRange(0, len(sk.tx.In)-1).Draw(t, "idx")
-	p := genPlan(t, sk, idx, true)
+	p := genPlan(t, sk, idx, true, []int{0, 0, 20, 40, 60})
 	sk.prevouts[idx] = p.prevout
 	sk.finalizeOutpoints()
 	p.sign(t, sk.tx, idx, sk.prevouts)
